@@ -515,3 +515,47 @@ Fixpoint mrun (fx : fixes) (s : mstate) (ops : list op) : list (list Z) * Z :=
           ((r ++ snap) :: rest, if t =? 0 then t' else t)
       end
   end.
+
+(* the same history, also returning the state it ends in (None after a Go panic) *)
+Fixpoint mrun_st (fx : fixes) (s : mstate) (ops : list op) : list (list Z) * Z * option mstate :=
+  match ops with
+  | [] => ([], 0, Some s)
+  | o :: ops' =>
+      let '(s', r, t) := mstep fx s o in
+      match m_snapshot fx s' with
+      | None => ([r ++ [9]], (if t =? 0 then 3 else t), None)
+      | Some snap =>
+          let t := if t =? 0 then m_snapshot_tag s' else t in
+          let '(rest, t', st) := mrun_st fx s' ops' in
+          ((r ++ snap) :: rest, (if t =? 0 then t' else t), st)
+      end
+  end.
+
+(* after Otto.Copy(): the two runtimes are independent replays; every step is followed by the
+   snapshot of the original and then of the copy *)
+Fixpoint mfork (fx : fixes) (sa sb : mstate) (ops : list (bool * op)) : list (list Z) * Z :=
+  match ops with
+  | [] => ([], 0)
+  | (side, o) :: ops' =>
+      let '(s', r, t) := mstep fx (if side then sb else sa) o in
+      let sa' := if side then sa else s' in
+      let sb' := if side then s' else sb in
+      match m_snapshot fx sa' with
+      | None => ([r ++ [9]], if t =? 0 then 3 else t)
+      | Some xa =>
+          match m_snapshot fx sb' with
+          | None => ([r ++ xa ++ [9]], if t =? 0 then 3 else t)
+          | Some xb =>
+              let t := if t =? 0 then (if m_snapshot_tag sa' =? 0 then m_snapshot_tag sb' else 2) else t in
+              let '(rest, t') := mfork fx sa' sb' ops' in
+              ((r ++ xa ++ xb) :: rest, if t =? 0 then t' else t)
+          end
+      end
+  end.
+
+Definition mrun_fork (fx : fixes) (prefix : list op) (ops : list (bool * op)) : list (list Z) * Z :=
+  let '(pre, t, st) := mrun_st fx minit prefix in
+  match st with
+  | None => (pre, t)
+  | Some s => let '(rest, t') := mfork fx s s ops in (pre ++ rest, if t =? 0 then t' else t)
+  end.
